@@ -248,7 +248,30 @@ def run_axis(res):
     matplotlib.use('Agg')
     import matplotlib.pyplot as plt
     import FlowCal
-    for T, M, W in ((262144, 4.5, 0.5), (1023, 4.5, 0.0), (1e6, 6.0, 1.25)):
+    for T, M, W in ((262144, 4.5, 0.5), (1023, 4.5, 0.0), (1e6, 6.0, 1.25), (262144, 4.5, 0.0), (1000, 4.5, 0.05)):
+        # drawing the figure (tick computation) must not change the scale: same parameters and same mapping before and after
+        fig = plt.figure()
+        try:
+            ax = fig.add_subplot(111)
+            ax.set_xscale('logicle', T=T, M=M, W=W)
+            ax.plot([1.0, T / 2.0], [0, 1])
+            tr = ax.xaxis.get_transform()
+            xs = np.array([0.0, 1.0, T / 100.0, T / 2.0, T])
+            before = np.asarray(tr.transform_non_affine(xs), dtype=float).tolist()
+            fig.canvas.draw()
+            buf_ = __import__('io').BytesIO()
+            fig.savefig(buf_, format='png')
+            tr2 = ax.xaxis.get_transform()
+            after = np.asarray(tr2.transform_non_affine(xs), dtype=float).tolist()
+            lt = tr2.inverted()
+            par = (float(lt.T), float(lt.M), float(lt.W))
+            if par != (float(T), float(M), float(W)) or before != after:
+                res.violation('axis-changed-by-drawing', "set_xscale('logicle', T=%r, M=%r, W=%r): after drawing the scale has (T, M, W) = %r and maps %r to %r (before: %r)" % (
+                    T, M, W, par, xs.tolist(), after, before), dict(kind='axis'))
+            else:
+                res.ok('axis-drawn', True)
+        finally:
+            plt.close(fig)
         fig = plt.figure()
         try:
             ax = fig.add_subplot(111)
